@@ -241,6 +241,11 @@ def run_check(prop, tier, seed, replay=None):
         accepted, rej = C.validate_traces(traces, 'ServerContract', {prop}, tmpl, work)
         byname = {s['name']: s for s in scs}
         violations, anomalies = C.confirm_rejections(prop, rej, lambda n: byname[n], lambda sc, w: C.run_scenarios(binp, [sc], w, nworkers=1)[0], 'ServerContract', tmpl, work)
+        hook_info = {}
+        if replay is None and prop in ('C01', 'C03', 'C08'):
+            from . import hooks_family
+            hook_info, hv = hooks_family.validate(prop, work)
+            violations += hv
         racy = sum(t[0].get('st_racy', 0) > 0 for t in traces)
         div = sum(t[0].get('st_diverged', 0) for t in traces)
         distinct = len({signature(t) for t in traces})
@@ -252,6 +257,7 @@ def run_check(prop, tier, seed, replay=None):
                    racy_schedules=racy, steering_divergences=div, state_projections_compared=sum(t[0].get('st_projok', 0) for t in traces), conformance_drift=sum(t[0].get('st_drift', 0) for t in traces), crashes=len(info['crashes']),
                    samples=[dict(scenario=scs[0]['name'], steps=scs[0]['steps'][:12], events=[e['ev'] for e in traces[0]][:40])],
                    exhaustive=False)
+        cov.update(hook_info)
         if replay is None and cov_info:
             cov.update(cov_info)
             cov['cover_paths_diverged'] = sum(1 for t in traces if '-cover-' in t[0]['scn'] and t[0].get('st_diverged', 0) > 0)
